@@ -41,6 +41,38 @@ import json
 print("@@" + json.dumps({"res": res, "loaded": loaded}))
 """
 
+# `from pkg import sub` in a fresh interpreter: attribute seen on the package right after importing the
+# package alone vs the submodule object obtained by an explicit import afterwards
+ATTR = r"""
+import sys
+pkg = sys.argv[1]
+subs = sys.argv[2:]
+res = {}
+try:
+    __import__(pkg)
+    P = sys.modules[pkg]
+    before = {}
+    for s in subs:
+        before[s] = getattr(P, s, None) if hasattr(P, s) else "<absent>"
+    for s in subs:
+        b = before[s]
+        try:
+            __import__(pkg + "." + s)
+            m = sys.modules[pkg + "." + s]
+            if isinstance(b, str) and b == "<absent>":
+                res[s] = ["absent", None]
+            elif b is m:
+                res[s] = ["same", None]
+            else:
+                res[s] = ["shadow", getattr(b, "__name__", type(b).__name__)]
+        except BaseException as ex:
+            res[s] = ["importfails", type(ex).__name__]
+except BaseException as ex:
+    res = {"<package>": ["importfails", type(ex).__name__]}
+import json
+print("@@" + json.dumps(res))
+"""
+
 STATE = {}
 
 
@@ -97,7 +129,10 @@ def run(ctx):
                 "program has imported nothing (exhaustive over the module universe), and seeded random import "
                 "orders of 2-6 modules; compared with the Coq model evaluated on the generated graph: verdict, "
                 "index of the first failing import, and the exact set of ioflo.* modules left in sys.modules; "
-                "non-trivial = the import loads at least 3 ioflo modules")
+                "non-trivial = the import loads at least 3 ioflo modules; plus, for every package and every submodule "
+                "file on disk, a fresh interpreter imports the package alone, reads the attribute pkg.<sub>, then imports "
+                "pkg.<sub> explicitly: the attribute must be absent or BE that submodule (compared with the generated "
+                "package-binding table)")
     ctx.assumptions = [
         "start-up sys.modules and the side-effect imports of external (stdlib / site-packages) modules are MEASURED "
         "in clean subprocesses of the interpreter under test and emitted into gen/ImportGraph.v",
@@ -185,6 +220,36 @@ def run(ctx):
     ctx.extra["mismatches"] = mism
     ctx.exhaustive = False
 
+    # -- `from pkg import sub` must be the submodule whatever the import history ---------------------
+    subs_of = {}
+    for pk, nme, full in g["sub_files"]:
+        subs_of.setdefault(pk, []).append(nme)
+    bind = {(pk, nme): t for pk, nme, t in g["pkg_bindings"]}
+
+    def attr_run(pk):
+        rc, out = ctx.impl_python(ATTR, None, 180, args=[pk] + subs_of[pk])
+        mm = re.search(r"^@@(.*)$", out, re.M)
+        return json.loads(mm.group(1)) if mm else {"<package>": ["nooutput", out[-200:]]}
+    with ThreadPoolExecutor(16) as ex:
+        attr = dict(zip(sorted(subs_of), ex.map(attr_run, sorted(subs_of))))
+    STATE["shadow"] = []
+    for pk in sorted(attr):
+        for nme, (verdict, what) in sorted(attr[pk].items()):
+            if nme == "<package>" or verdict == "importfails":
+                continue
+            full = pk + "." + nme
+            t = bind.get((pk, nme), "<unbound>")
+            model_shadow = (pk, nme) in bind and t != full
+            ctx.case({"from": pk, "import": nme, "verdict": verdict}, nontrivial=verdict != "absent",
+                     kind="from-import:" + verdict)
+            if verdict == "shadow":
+                STATE["shadow"].append({"package": pk, "submodule": nme, "attribute_is": what})
+            if (verdict == "shadow") != model_shadow:
+                mism += 1
+                ctx.tie_broken("correspondence", "package-namespace binding table vs fresh interpreter",
+                               "from %s import %s: interpreter=%s(%s) table binds it to %r" % (pk, nme, verdict, what, t))
+    ctx.extra["from_import_pairs"] = sum(len(v) for v in subs_of.values())
+
     # -- known findings (print the line; they are excluded from [checked] via gen waived) ----
     for m in mods:
         r = alone[m]["res"][-1]
@@ -227,6 +292,19 @@ def search(ctx):
                 "modules_failing_for_this_cause": len(victims),
                 "other_root_causes": {k: [v[0] for v in vs][:5] for k, vs in roots.items() if k != root},
                 "contradicts": "C01.Props.all_import_alone"}
+    for sh in STATE.get("shadow", []):
+        key = "shadowed-submodule:%s.%s" % (sh["package"], sh["submodule"])
+        if ctx.known_finding(key):
+            continue
+        full = sh["package"] + "." + sh["submodule"]
+        return {"key": key,
+                "command": "cd / && PYTHONPATH=%s /venv/bin/python -c \"from %s import %s as first; import %s, sys; "
+                           "assert first is sys.modules['%s'], first\"" % (ctx.repo, sh["package"], sh["submodule"],
+                                                                         full, full),
+                "observed": "in a fresh interpreter `from %s import %s` returns %s; after `import %s` it returns the "
+                            "submodule" % (sh["package"], sh["submodule"], sh["attribute_is"], full),
+                "expected": "the module obtained does not depend on what was imported before",
+                "contradicts": "C01.Props.no_shadowed_submodule / from_import_history_independent"}
     for l, r in STATE.get("seqs", []):
         e = r["res"][-1]
         if not e[1] and e[0] not in waived and root_module(ctx, e) not in waived:
